@@ -313,6 +313,12 @@ class CompiledModule(CompiledValue):
     def py__file__(self) -> Optional[Path]:
         return self.access_handle.py__file__()  # type: ignore[no-any-return]
 
+    def get_signatures(self):
+        # Modules are not callable. The docstring parsing of CompiledValue
+        # would otherwise invent a signature from the module docstring whose
+        # param names have no parent context.
+        return []
+
 
 class CompiledName(AbstractNameDefinition):
     def __init__(self, inference_state, parent_value, name, is_descriptor):
